@@ -111,7 +111,7 @@ impl Check for MerkleIndexed {
                     let before = w.storage_digest(&[&id]);
                     let got = c.try_claim(&leaf, &pv).is_ok();
                     let exp = genuine && cur == Some(*tree) && !claimed.contains(&leaf.index);
-                    st.hit(if got { "tx.ok" } else { "tx.refused" });
+                    st.tx(if genuine { "claim.genuine" } else { "claim.corrupted" }, got);
                     if got != exp {
                         return Err(violation(if got { "claim.iff_genuine_and_unclaimed" } else { "verify.accepts_honest" }, "claim", i, format!("{s:?}: real {got} model {exp}; current root = tree {cur:?}; claimed {claimed:?}")));
                     }
